@@ -58,7 +58,12 @@ long kmax;                                         /* every block number of a re
 /* ---- the parts.  prepare() writes the three tolerances of the part it has just created; the part created for the ghost
  * (CX4 relation, permutation) is the object g_ghost_part, every other one the scratch object g_other_part. */
 //@tu src/pomerol/TwoParticleGFPart.cpp
-//@struct Pomerol::TwoParticleGFPart only=Status,ReduceResonanceTolerance,CoefficientTolerance,MultiTermCoefficientTolerance
+/* the two term lists of a part are only broadcast here: number of broadcasts and the root of the last one */
+typedef struct TermListNR { unsigned long n_bcast; int root; } TermListNR;
+typedef struct TermListR { unsigned long n_bcast; int root; } TermListR;
+//@type (Pomerol::)?TermList<(Pomerol::)?TwoParticleGFPart::NonResonantTerm> => TermListNR ptr
+//@type (Pomerol::)?TermList<(Pomerol::)?TwoParticleGFPart::ResonantTerm> => TermListR ptr
+//@struct Pomerol::TwoParticleGFPart only=Status,ReduceResonanceTolerance,CoefficientTolerance,MultiTermCoefficientTolerance,NonResonantTerms,ResonantTerms
 //@extra
 unsigned long n_compute, n_eval, n_clear, evals_at_clear;   /* ghost: calls of compute() / operator() / clear(), evaluations seen when clear() was called */
 //@end
@@ -73,6 +78,7 @@ typedef struct PartVec {
   unsigned long n; struct TwoParticleGFPart *last; struct TwoParticleGFPart **items;
   /* ghost */ long gidx;      /* ONE arbitrary position in [0,n) or -1 */
   long last_pos;              /* position of the most recent dereference */
+  struct TwoParticleGFPart *gitem, *oitem;   /* compute(): ghost-element view for operator[]: the part at gidx / a scratch part for every other index */
 } PartVec;
 typedef struct PartVecRIt { PartVec *v; } PartVecRIt;
 typedef struct PartVecIt { PartVec *v; long pos; } PartVecIt;
@@ -374,10 +380,10 @@ __CPROVER_ensures(g_evals == EXPECTED_EVALS(self))
 __CPROVER_ensures(C_SAME(__CPROVER_return_value, g_sum) && (!self->Vanishing || SUM_IS_ZERO))
 //@end
 
-//@harness h_TPGF_call_z enforce=TwoParticleGF_call_z props=C02 min_obl=100 timeout=300 reach=2
+//@harness h_TPGF_call_z enforce=TwoParticleGF_call_z props=C02 min_obl=405 timeout=60 reach=2
 void h_TPGF_call_z(void) { struct TwoParticleGF *g; cplx z1, z2, z3; TwoParticleGF_call_z(g, z1, z2, z3); REACH("exit"); }
 
-//@harness h_TPGF_call_n enforce=TwoParticleGF_call_n props=C02 min_obl=100 timeout=300 reach=2
+//@harness h_TPGF_call_n enforce=TwoParticleGF_call_n props=C02 min_obl=475 timeout=60 reach=2
 void h_TPGF_call_n(void) { struct TwoParticleGF *g; long n1, n2, n3; TwoParticleGF_call_n(g, n1, n2, n3); REACH("exit"); }
 
 /* ================================================================================================================
@@ -387,15 +393,20 @@ void h_TPGF_call_n(void) { struct TwoParticleGF *g; long n1, n2, n3; TwoParticle
  *   the part is cleared, once, after all evaluations.  part(...) = TwoParticleGFPart::operator() is an opaque function of the
  *   frequencies (contract in tpgfpart.c).  The OpenMP pragmas are dropped by the extractor (sequential view; the iterations write
  *   disjoint data[w]). */
+/* std::vector<freq_tuple> / std::vector<ComplexType>: ghost-element model (as stubs/gvec.h): the element at ONE arbitrary index gidx is
+ * a real object, every other index yields a scratch element of arbitrary content (stores to it are forgotten): an over-approximation
+ * without heap arrays.  ASSERTED: operator[] inside the vector.  ghits counts the accesses to the ghost element. */
 #define FV_MAX 2147483647UL      /* LIMIT: `int wsize = freqs_->size()` wraps for longer lists */
 typedef struct FreqTuple { cplx z0, z1, z2; } FreqTuple;
-typedef struct FreqVec { unsigned long size; FreqTuple *data; } FreqVec;
-typedef struct CplxVec { unsigned long size; cplx *data; /* ghost */ unsigned long gidx, ghits; } CplxVec;
+typedef struct FreqVec { unsigned long size; /* ghost */ unsigned long gidx; FreqTuple gelem, scratch; } FreqVec;
+typedef struct CplxVec { unsigned long size; /* ghost */ unsigned long gidx, ghits; cplx gelem, scratch; } CplxVec;
 static inline unsigned long FreqVec_size(FreqVec *v) { return v->size; }
 static inline FreqTuple *FreqVec_at(FreqVec *v, unsigned long i)
 {
   __CPROVER_assert(i < v->size, "std::vector<freq_tuple>::operator[] inside the vector");
-  return &v->data[i];
+  if (i == v->gidx) return &v->gelem;
+  v->scratch.z0 = cplx_ctor2(nondet_double(), nondet_double()); v->scratch.z1 = cplx_ctor2(nondet_double(), nondet_double()); v->scratch.z2 = cplx_ctor2(nondet_double(), nondet_double());
+  return &v->scratch;
 }
 #define FreqTuple_get0(t) (&(t)->z0)
 #define FreqTuple_get1(t) (&(t)->z1)
@@ -403,8 +414,9 @@ static inline FreqTuple *FreqVec_at(FreqVec *v, unsigned long i)
 static inline cplx *CplxVec_at(CplxVec *v, unsigned long i)
 {
   __CPROVER_assert(i < v->size, "std::vector<ComplexType>::operator[] inside the vector");
-  if (i == v->gidx) v->ghits++;
-  return &v->data[i];
+  if (i == v->gidx) { v->ghits++; return &v->gelem; }
+  v->scratch = cplx_ctor2(nondet_double(), nondet_double());
+  return &v->scratch;
 }
 static inline unsigned long CplxVec_size(CplxVec *v) { return v->size; }
 //@type std::vector<boost::(tuples::)?tuple<std::complex<double>, std::complex<double>, std::complex<double>.*|(Pomerol::)?freq_vec_t|std::vector<(Pomerol::)?freq_tuple(, .*)?> => FreqVec ptr
@@ -426,38 +438,184 @@ cplx TwoParticleGFPart_call_in_run(struct TwoParticleGFPart *part, cplx z1, cplx
   return part_value(0, z1, z2, z3);
 }
 unsigned long g_old_re, g_old_im, g_new_re, g_new_im;   /* bit patterns of data[gidx] before / expected after (calls are not allowed in loop invariants) */
-/* bit pattern of a double VALUE (no pointer cast into the heap array: that explodes) */
-#define BITSV(x) (((union { double d; unsigned long u; }){ .d = (x) }).u)
 #define W_GHOST(self) ((self)->data_->gidx < (self)->data_->size)
-#define W_DATA(self) ((self)->data_->data[(self)->data_->gidx])
-#define W_FREQ(self) ((self)->freqs_->data[(self)->data_->gidx])
+#define W_DATA(self) ((self)->data_->gelem)
+#define W_FREQ(self) ((self)->freqs_->gelem)
 //@function Pomerol::ComputeAndClearWrap::run() as ComputeAndClearWrap_run
 //@contract
 __CPROVER_requires(__CPROVER_is_fresh(self, sizeof(*self)) && g_wrap == self)
 __CPROVER_requires(__CPROVER_is_fresh(self->p, sizeof(*self->p)) && __CPROVER_is_fresh(self->freqs_, sizeof(*self->freqs_)) && __CPROVER_is_fresh(self->data_, sizeof(*self->data_)))
-__CPROVER_requires(self->freqs_->size <= FV_MAX && __CPROVER_is_fresh(self->freqs_->data, self->freqs_->size * sizeof(FreqTuple)) &&
-                   __CPROVER_is_fresh(self->data_->data, self->data_->size * sizeof(cplx)))
-/* how TwoParticleGF::compute builds the wrapper: the table has one slot per frequency */
-__CPROVER_requires(self->data_->size == self->freqs_->size)
+__CPROVER_requires(self->freqs_->size <= FV_MAX)
+/* how TwoParticleGF::compute builds the wrapper: the table has one slot per frequency; the same ghost index in both vectors */
+__CPROVER_requires(self->data_->size == self->freqs_->size && self->data_->gidx == self->freqs_->gidx)
 __CPROVER_requires(self->p->n_compute == 0 && self->p->n_eval == 0 && self->p->n_clear == 0 && self->data_->ghits == 0)
 __CPROVER_requires(!W_GHOST(self) || (g_old_re == d_bits(W_DATA(self).re) && g_old_im == d_bits(W_DATA(self).im)))
 __CPROVER_requires(!W_GHOST(self) || (g_new_re == d_bits(op_add_cplx_cplx(W_DATA(self), part_value(0, W_FREQ(self).z0, W_FREQ(self).z1, W_FREQ(self).z2)).re) &&
                                       g_new_im == d_bits(op_add_cplx_cplx(W_DATA(self), part_value(0, W_FREQ(self).z0, W_FREQ(self).z1, W_FREQ(self).z2)).im)))
-__CPROVER_assigns(self->p->n_compute, self->p->Status, self->p->n_eval, self->p->n_clear, self->p->evals_at_clear, self->data_->ghits, __CPROVER_object_whole(self->data_->data))
+__CPROVER_assigns(self->p->n_compute, self->p->Status, self->p->n_eval, self->p->n_clear, self->p->evals_at_clear, self->data_->ghits, self->data_->gelem, self->data_->scratch, self->freqs_->scratch)
 /* computed first, once; evaluated once per frequency iff fill; cleared once, after the evaluations, iff clear */
 __CPROVER_ensures(self->p->n_compute == 1 && self->p->n_eval == (self->fill_ ? self->freqs_->size : 0UL))
 __CPROVER_ensures(self->p->n_clear == (self->clear_ ? 1UL : 0UL) && (!self->clear_ || self->p->evals_at_clear == self->p->n_eval))
 /* the ghost slot: accessed once and equal to old + part(freqs[gidx]) iff fill, untouched otherwise; length unchanged (frame) */
-__CPROVER_ensures(!W_GHOST(self) || (self->fill_ ? (self->data_->ghits == 1 && BITSV(W_DATA(self).re) == g_new_re && BITSV(W_DATA(self).im) == g_new_im)
-                                                 : (self->data_->ghits == 0 && BITSV(W_DATA(self).re) == g_old_re && BITSV(W_DATA(self).im) == g_old_im)))
+__CPROVER_ensures(!W_GHOST(self) || (self->fill_ ? (self->data_->ghits == 1 && BITS(W_DATA(self).re) == g_new_re && BITS(W_DATA(self).im) == g_new_im)
+                                                 : (self->data_->ghits == 0 && BITS(W_DATA(self).re) == g_old_re && BITS(W_DATA(self).im) == g_old_im)))
 //@loop 1
-__CPROVER_assigns(w, self->p->n_eval, self->data_->ghits, __CPROVER_object_whole(self->data_->data))
+__CPROVER_assigns(w, self->p->n_eval, self->data_->ghits, self->data_->gelem, self->data_->scratch, self->freqs_->scratch)
 __CPROVER_loop_invariant(0 <= w && w <= wsize && (unsigned long)wsize == self->freqs_->size && self->p->n_eval == (unsigned long)w)
 __CPROVER_loop_invariant(!W_GHOST(self) || ((unsigned long)w <= self->data_->gidx
-       ? (self->data_->ghits == 0 && BITSV(W_DATA(self).re) == g_old_re && BITSV(W_DATA(self).im) == g_old_im)
-       : (self->data_->ghits == 1 && BITSV(W_DATA(self).re) == g_new_re && BITSV(W_DATA(self).im) == g_new_im)))
+       ? (self->data_->ghits == 0 && BITS(W_DATA(self).re) == g_old_re && BITS(W_DATA(self).im) == g_old_im)
+       : (self->data_->ghits == 1 && BITS(W_DATA(self).re) == g_new_re && BITS(W_DATA(self).im) == g_new_im)))
 __CPROVER_decreases(wsize - w)
 //@end
 
-//@harness h_CACW_run enforce=ComputeAndClearWrap_run props=C02,C17 min_obl=100 timeout=300 reach=4
+//@harness h_CACW_run enforce=ComputeAndClearWrap_run props=C02,C17 min_obl=1245 timeout=60 reach=3
 void h_CACW_run(void) { struct ComputeAndClearWrap *wr; ComputeAndClearWrap_run(wr); REACH("exit"); }
+
+/* ================================================================================================================
+ * TwoParticleGF::compute(clear, freqs, comm)  ("Actually computes the parts and fill the internal cache of precomputed values"):
+ * per-rank sequential view.  Status < Prepared: exStatusMismatch.  Already computed, or Vanishing: an EMPTY table (not freqs.size()
+ * zeros).  Otherwise: the table has freqs.size() slots (zero-filled); one ComputeAndClearWrap per part, in order, each built from
+ * (&freqs, &table, parts[i], clear, fill = !freqs.empty(), complexity 1) -- ghost part: exactly one; the skeleton is run once, after all
+ * wrappers are in place; the table is reduced once onto rank 0 over freqs.size() elements, both buffers being the data() of vectors of
+ * that length (C17: valid for an empty frequency list too -- the pre-fix `&m_data[0]` fails the bounds assert of operator[]); the
+ * reduced table is returned on rank 0 (zeros elsewhere); unless `clear`, both term lists of every part are broadcast from the rank that
+ * ran it (job_map[p]) and the part is marked Computed; Status = Computed.
+ * mpi_skel::run (C16, mpi.c) and boost::mpi::reduce are contract stubs. */
+#include "../stubs/mpi.h"
+void VERIF_mpi_store_hook(MpiReq *dst, MpiReq src) { }
+void VERIF_mpi_send_hook(Comm *c, int dest, int tag, _Bool has_value, int value) { }
+void VERIF_mpi_post_hook(int source, int tag, int *buf) { }
+void VERIF_mpi_deliver_hook(MpiReq *r, int value) { }
+//@type std::vector<boost::(tuples::)?tuple<(Pomerol::)?ComplexType, (Pomerol::)?ComplexType, (Pomerol::)?ComplexType> ?> => FreqVec ptr
+//@type boost::mpi::communicator => Comm ptr
+//@type pMPI::mpi_skel<(Pomerol::)?ComputeAndClearWrap> => struct Skel ptr
+//@type std::vector<(Pomerol::)?ComputeAndClearWrap(, .*)?> => WrapVec ptr
+//@type std::map<pMPI::JobId, pMPI::WorkerId>|std::map<int, int(, .*)?> => IntMap ptr
+//@type std::map<int, int>::key_type => int scalar
+//@type std::plus<std::complex<double> ?>|std::plus<(Pomerol::)?ComplexType> => int scalar
+//@free broadcast(Comm,TermListNR,int) => broadcast_nr
+//@free broadcast(Comm,TermListR,int) => broadcast_r
+/* `&cplx_ctor1(0.0)` is printed for the fill value of vector(n, value): the temporary must be addressable */
+#define cplx_ctor1(x_) (*(cplx[1]){ (cplx_ctor1)(x_) })
+
+FreqVec *g_freqs; Comm *g_comm; _Bool g_clear;      /* the arguments of compute() (compared, never dereferenced) */
+unsigned long g_tidx;                               /* ghost index of every table created in compute() */
+CplxVec *g_table;                                   /* the table the wrappers point to */
+CplxVec *g_hvec[2]; unsigned long g_nh;             /* the vectors whose data() / [0] was taken, in order */
+unsigned long g_n_push, g_push_hits, g_n_run, g_n_reduce, g_n_barrier;
+cplx g_reduced;                                     /* value the reduction delivers at the ghost index (root) */
+int g_owner;                                        /* rank that ran the ghost part: job_map[gidx] */
+/* ---- std::vector<ComplexType> as a local table */
+static inline CplxVec CplxVec_ctor0(void) { CplxVec v; v.size = 0; v.gidx = g_tidx; v.ghits = 0; v.gelem = (cplx_ctor1)(0.0); v.scratch = (cplx_ctor1)(0.0); return v; }
+static inline void CplxVec_resize(CplxVec *v, unsigned long n, cplx val) { if (v->size <= v->gidx) v->gelem = val; v->size = n; }   /* new slots = val */
+static inline CplxVec CplxVec_ctor2(unsigned long n, cplx *val) { CplxVec v = CplxVec_ctor0(); v.size = n; v.gelem = *val; return v; }
+static inline cplx *CplxVec_data(CplxVec *v) { if (g_nh < 2) g_hvec[g_nh] = v; g_nh++; return &v->gelem; }   /* valid for an empty vector too */
+static inline void swap(CplxVec *a, CplxVec *b) { CplxVec t = *a; *a = *b; *b = t; }
+/* ---- operator[] of `parts` (ghost-element view) */
+static inline struct TwoParticleGFPart **PartVec_at(PartVec *v, unsigned long i)
+{
+  __CPROVER_assert(i < v->n, "std::vector<TwoParticleGFPart*>::operator[] inside the vector");
+  if ((long)i == v->gidx) return &v->gitem;
+  __CPROVER_havoc_object(v->oitem);
+  return &v->oitem;
+}
+/* ---- the skeleton */
+typedef struct WrapVec { unsigned long n; } WrapVec;
+struct Skel { WrapVec parts; };
+static inline struct Skel Skel_ctor0(void) { struct Skel s; s.parts.n = 0; return s; }
+static inline void WrapVec_reserve(WrapVec *v, unsigned long n) { }
+//@function Pomerol::ComputeAndClearWrap::ComputeAndClearWrap(std::vector<boost::tuples::tuple<std::complex<double>, std::complex<double>, std::complex<double>, boost::tuples::null_type, boost::tuples::null_type, boost::tuples::null_type, boost::tuples::null_type, boost::tuples::null_type, boost::tuples::null_type, boost::tuples::null_type>, std::allocator<boost::tuples::tuple<std::complex<double>, std::complex<double>, std::complex<double>, boost::tuples::null_type, boost::tuples::null_type, boost::tuples::null_type, boost::tuples::null_type, boost::tuples::null_type, boost::tuples::null_type, boost::tuples::null_type> > > const*, std::vector<std::complex<double>, std::allocator<std::complex<double> > >*, Pomerol::TwoParticleGFPart*, bool, bool, int) as ComputeAndClearWrap_ctor6
+//@end
+static inline void WrapVec_push_back(WrapVec *v, struct ComputeAndClearWrap w)
+{
+  PartVec *pv = &g_self->parts;
+  /* wrapper number k is built for part number k, from the arguments of compute() and ONE table */
+  __CPROVER_assert(v->n < pv->n, "C02: at most one wrapper per part");
+  __CPROVER_assert(w.freqs_ == g_freqs && w.clear_ == g_clear && w.fill_ == (g_freqs->size > 0) && w.complexity == 1, "C02: wrapper = (&freqs, ., ., clear, !freqs.empty(), complexity 1)");
+  if (v->n == 0) g_table = w.data_;
+  __CPROVER_assert(w.data_ == g_table && g_table->size == g_freqs->size, "C02: every wrapper fills the same table, which has freqs.size() slots");
+  if ((long)v->n == pv->gidx) { __CPROVER_assert(w.p == pv->gitem, "C02: wrapper k evaluates parts[k]"); g_push_hits++; }
+  g_n_push++; v->n++;
+  REACH("push wrapper");
+}
+/* mpi_skel<ComputeAndClearWrap>::run(comm, verbose) (C16): every wrapper is run on some rank; the wrappers run HERE add into the table
+ * (contents arbitrary afterwards, length unchanged: contract of ComputeAndClearWrap::run above); returns the job -> rank map. */
+static inline IntMap Skel_run(struct Skel *s, Comm *comm, _Bool verbose)
+{
+  __CPROVER_assert(s->parts.n == g_self->parts.n && comm == g_comm, "C02: the skeleton is run on compute()'s communicator after a wrapper has been added for every part");
+  if (g_table) g_table->gelem = cplx_ctor2(nondet_double(), nondet_double());
+  g_n_run++;
+  IntMap m; m.size = nondet_ulong(); m.gkey = g_self->parts.gidx; m.gpresent = 1; m.gval = g_owner; m.other = 0; m.inv_pool = 0; m.gpos = 0;
+  REACH("skel.run");
+  return m;
+}
+/* boost::mpi::reduce(comm, in_values, n, out_values, op, root) (collectives/reduce.hpp): ASSERTED: both buffers hold n elements;
+ * ASSUMED: on the root out_values[0..n) receive the element-wise combination, on every other rank out_values is not written. */
+static inline void reduce(Comm *comm, cplx *in, int n, cplx *out, int op, int root)
+{
+  __CPROVER_assert(comm == g_comm && root == 0, "C02: reduced onto rank 0 of compute()'s communicator");
+  __CPROVER_assert(g_nh == 2 && (in == &g_hvec[0]->gelem || in == &g_hvec[0]->scratch) && (out == &g_hvec[1]->gelem || out == &g_hvec[1]->scratch),
+                   "C17: the buffers handed to reduce are the storage of two vectors");
+  __CPROVER_assert(g_hvec[0] == g_table || g_table == (CplxVec *)0, "C02: the table filled by the wrappers is the one that is reduced");
+  __CPROVER_assert(n >= 0 && (unsigned long)n == g_hvec[0]->size && (unsigned long)n == g_hvec[1]->size && (unsigned long)n == g_freqs->size,
+                   "C17: both buffers hold exactly the n = freqs.size() elements that are reduced");
+  if (comm->rank_ == root) g_hvec[1]->gelem = g_reduced;
+  g_n_reduce++;
+  REACH("reduce");
+}
+static inline void broadcast_nr(Comm *comm, TermListNR *t, int root) { __CPROVER_assert(comm == g_comm, "C02: broadcast on compute()'s communicator"); t->n_bcast++; t->root = root; }
+static inline void broadcast_r(Comm *comm, TermListR *t, int root) { __CPROVER_assert(comm == g_comm, "C02: broadcast on compute()'s communicator"); t->n_bcast++; t->root = root; REACH("broadcast terms"); }
+#define Comm_barrier(c_) ((void)(g_n_barrier++))
+
+#define GP(self) ((self)->parts.gitem)
+#define HAS_GP(self) ((self)->parts.gidx >= 0)
+#define CASE_RUN(self, st) ((st) >= Prepared && (st) < Computed && !(self)->Vanishing)
+//@function Pomerol::TwoParticleGF::compute(bool, std::vector<boost::tuples::tuple<std::complex<double>, std::complex<double>, std::complex<double>, boost::tuples::null_type, boost::tuples::null_type, boost::tuples::null_type, boost::tuples::null_type, boost::tuples::null_type, boost::tuples::null_type, boost::tuples::null_type>, std::allocator<boost::tuples::tuple<std::complex<double>, std::complex<double>, std::complex<double>, boost::tuples::null_type, boost::tuples::null_type, boost::tuples::null_type, boost::tuples::null_type, boost::tuples::null_type, boost::tuples::null_type, boost::tuples::null_type> > > const&, boost::mpi::communicator const&) as TwoParticleGF_compute
+//@contract
+__CPROVER_requires(__CPROVER_is_fresh(self, sizeof(*self)) && g_self == self)
+__CPROVER_requires(__CPROVER_is_fresh(freqs, sizeof(*freqs)) && __CPROVER_is_fresh(comm, sizeof(*comm)) && g_freqs == freqs && g_comm == comm && g_clear == clear)
+__CPROVER_requires(freqs->size <= FV_MAX)      /* LIMIT: the element count handed to reduce is an int */
+__CPROVER_requires(self->parts.n <= PV_MAX && (self->parts.gidx == -1 || (0 <= self->parts.gidx && self->parts.gidx < (long)self->parts.n)))
+__CPROVER_requires(__CPROVER_is_fresh(self->parts.gitem, sizeof(struct TwoParticleGFPart)) && __CPROVER_is_fresh(self->parts.oitem, sizeof(struct TwoParticleGFPart)))
+__CPROVER_requires(GP(self)->NonResonantTerms.n_bcast == 0 && GP(self)->ResonantTerms.n_bcast == 0)
+__CPROVER_requires(g_n_push == 0 && g_push_hits == 0 && g_n_run == 0 && g_n_reduce == 0 && g_nh == 0 && g_n_barrier == 0 && g_table == (CplxVec *)0 && !VERIF_thrown)
+__CPROVER_assigns(self->Status, VERIF_thrown, g_n_push, g_push_hits, g_n_run, g_n_reduce, g_nh, g_n_barrier, g_table, __CPROVER_object_whole(g_hvec),
+                  __CPROVER_object_whole(self->parts.gitem), __CPROVER_object_whole(self->parts.oitem))
+/* Status < Prepared: exception, nothing done */
+__CPROVER_ensures(VERIF_thrown == (__CPROVER_old(self->Status) < Prepared))
+__CPROVER_ensures(VERIF_thrown ==> (self->Status == __CPROVER_old(self->Status) && g_n_push == 0 && g_n_run == 0 && g_n_reduce == 0))
+/* already computed / vanishing: an empty table, no communication */
+__CPROVER_ensures((!VERIF_thrown && !CASE_RUN(self, __CPROVER_old(self->Status))) ==> (__CPROVER_return_value.size == 0 && g_n_push == 0 && g_n_run == 0 && g_n_reduce == 0 && g_n_barrier == 0))
+__CPROVER_ensures((!VERIF_thrown && __CPROVER_old(self->Status) >= Computed) ==> self->Status == __CPROVER_old(self->Status))
+__CPROVER_ensures((!VERIF_thrown && __CPROVER_old(self->Status) < Computed) ==> self->Status == Computed)
+/* the real work */
+__CPROVER_ensures(CASE_RUN(self, __CPROVER_old(self->Status)) ==> (__CPROVER_return_value.size == freqs->size && g_n_push == self->parts.n && g_push_hits == (HAS_GP(self) ? 1UL : 0UL) &&
+                                                                   g_n_run == 1 && g_n_reduce == 1))
+__CPROVER_ensures((CASE_RUN(self, __CPROVER_old(self->Status)) && g_tidx < freqs->size) ==>
+                  C_SAME(__CPROVER_return_value.gelem, comm->rank_ == 0 ? g_reduced : (cplx_ctor1)(0.0)))
+__CPROVER_ensures((CASE_RUN(self, __CPROVER_old(self->Status)) && HAS_GP(self)) ==> (clear
+      ? (GP(self)->NonResonantTerms.n_bcast == 0 && GP(self)->ResonantTerms.n_bcast == 0 && GP(self)->Status == __CPROVER_old(GP(self)->Status))
+      : (GP(self)->NonResonantTerms.n_bcast == 1 && GP(self)->ResonantTerms.n_bcast == 1 && GP(self)->NonResonantTerms.root == g_owner && GP(self)->ResonantTerms.root == g_owner &&
+         GP(self)->Status == Computed)))
+//@loop 1
+__CPROVER_assigns(i, skel.parts.n, g_n_push, g_push_hits, g_table, __CPROVER_object_whole(self->parts.oitem))
+__CPROVER_loop_invariant(i <= self->parts.n && skel.parts.n == i && g_n_push == i && g_push_hits == ((HAS_GP(self) && (long)i > self->parts.gidx) ? 1UL : 0UL))
+__CPROVER_loop_invariant(m_data.size == freqs->size && (i == 0 ? g_table == (CplxVec *)0 : g_table == &m_data))
+__CPROVER_decreases(self->parts.n - i)
+//@loop 2
+__CPROVER_assigns(p, job_map.size, job_map.gpresent, job_map.gval, job_map.other, __CPROVER_object_whole(self->parts.gitem), __CPROVER_object_whole(self->parts.oitem))
+__CPROVER_loop_invariant(p <= self->parts.n && job_map.gpresent && job_map.gval == g_owner && job_map.gkey == self->parts.gidx)
+__CPROVER_loop_invariant(!HAS_GP(self) || ((long)p <= self->parts.gidx
+      ? (GP(self)->NonResonantTerms.n_bcast == 0 && GP(self)->ResonantTerms.n_bcast == 0 && GP(self)->Status == __CPROVER_loop_entry(GP(self)->Status))
+      : (GP(self)->NonResonantTerms.n_bcast == 1 && GP(self)->ResonantTerms.n_bcast == 1 && GP(self)->NonResonantTerms.root == g_owner && GP(self)->ResonantTerms.root == g_owner &&
+         GP(self)->Status == Computed)))
+__CPROVER_decreases(self->parts.n - p)
+//@end
+
+//@harness h_TPGF_compute enforce=TwoParticleGF_compute props=C02,C17 min_obl=100 timeout=600 reach=6
+void h_TPGF_compute(void)
+{
+  struct TwoParticleGF *g; _Bool clear; FreqVec *f; Comm *c;
+  TwoParticleGF_compute(g, clear, f, c);
+  if (VERIF_thrown) REACH("thrown"); else REACH("exit");
+}
